@@ -313,7 +313,11 @@ impl Engine for Scc {
         let small = rng.chance(55, 100);
         // rarely a container far beyond the usual sizes (size-dependent code paths)
         let huge = rng.chance(1, 15_000);
-        let n = if huge {
+        // (a third of them beyond 4096 members; only sparse shapes there)
+        let giant = huge && rng.chance(1, 3);
+        let n = if giant {
+            rng.range(4100, 9000)
+        } else if huge {
             rng.range(700, 1800)
         } else if small {
             rng.range(1, 4)
@@ -329,7 +333,7 @@ impl Engine for Scc {
             edges.push((u, v, id));
         };
         // swarm: shape of the graph varies per run
-        match if huge { *rng.pick(&[0usize, 3, 4, 5]) } else { rng.below(5) } {
+        match if giant { *rng.pick(&[0usize, 4, 5, 5]) } else if huge { *rng.pick(&[0usize, 3, 4, 5]) } else { rng.below(5) } {
             5 => {
                 // many small gadgets a->b, a->c, c->b and short cycles
                 let mut i = 0;
